@@ -254,6 +254,21 @@ def directed_scenarios():
                                 [["edit", "const", "h1"], [], r1, {"c1": "m1"}, [second]],
                                 [["edit", "const", "h1"], c01.event_actions(r1, r2), r2, {"c1": "m1"}, [second]],
                                 [["edit", "const", "h1"], [], r2, {"c1": "m1"}, None]]))
+    # a plain helper re-defined several times, each body naming other globals
+    z0 = dict(defs={"V1": dict(kind="var", where="mod", value=1), "V2": dict(kind="var", where="mod", value=2), "V3": dict(kind="var", where="mod", value=3),
+                    "h1": f("plain", [["V1", "bare"]]), "m1": f("memento", [["h1", "bare"]]), "m2": f("memento", [["m1", "bare"]])},
+              order=["V1", "V2", "V3", "h1", "m1", "m2"])
+    evs, prevp = [], z0
+    for refs in ([["V2", "bare"]], [["V3", "bare"]], [["V1", "bare"], ["V3", "bare"]], [["V2", "bare"]], [["V1", "bare"]], [["V3", "bare"]],
+                 [["V2", "bare"]], [["V1", "bare"]], [["V3", "bare"]], [["V2", "bare"], ["V1", "bare"]], [["V3", "bare"]], [["V1", "bare"]]):
+        cur = copy.deepcopy(prevp)
+        cur["defs"]["h1"]["refs"] = refs
+        evs.append([["edit", "refs", "h1"], c01.event_actions(prevp, cur), cur, {}])
+        cur2 = copy.deepcopy(cur)
+        cur2["defs"][refs[-1][0]]["value"] = cur["defs"][refs[-1][0]]["value"] + 10
+        evs.append([["edit", "var", refs[-1][0]], c01.event_actions(cur, cur2), cur2, {}])
+        prevp = cur2
+    out.append(dict(note="helper re-defined several times naming other globals", program=z0, events=evs))
     # a builtin name used by a function is shadowed by a function of the module
     s0 = dict(defs={"m1": f("memento", [["abs", "bare"]]), "m2": f("memento", [["m1", "bare"]])}, order=["m1", "m2"], late_builtin=["abs"])
     s1 = copy.deepcopy(s0); s1["defs"]["abs"] = f("plain", [], const=4); s1["order"] = ["abs", "m1", "m2"]
@@ -343,8 +358,8 @@ def declared_dependency_scenarios(root):
         p = subprocess.run([common.PY, "-B", "-c", RAW_DECL_CHILD, sub, json.dumps(order)], stdout=subprocess.PIPE,
                            stderr=subprocess.PIPE, text=True, env=env, timeout=120)
         if p.returncode != 0:
-            return {"error": p.stderr.strip().split("\\n")[-1][:200]}
-        return json.loads(p.stdout.strip().split("\\n")[-1])
+            return {"error": p.stderr.strip().split("\n")[-1][:200]}
+        return json.loads(p.stdout.strip().split("\n")[-1])
     fresh = run([])
     if "error" in fresh:
         raise common.Infra("declared-dependency scenario does not import: %s" % fresh["error"])
@@ -359,6 +374,67 @@ def declared_dependency_scenarios(root):
                                   fresh=fresh.get(base)))
                 break
     shutil.rmtree(sub, ignore_errors=True)
+    return fails
+
+
+RAW_STATE_MOD = """from twosigma.memento import memento_function
+
+%s
+
+
+@memento_function
+def m1(x):
+    return [x, RATE(x) if callable(RATE) else RATE]
+
+
+@memento_function
+def m2(x):
+    return m1(x)
+"""
+RAW_STATES = ["RATE = 3", "RATE = 4", "def _rate(x):\n    return x * 2\n\n\nRATE = _rate", "def _rate(x):\n    return x * 5\n\n\nRATE = _rate",
+              "RATE = lambda x: x + 1", "RATE = 3"]
+RAW_STATE_CHILD = """import json, sys, linecache
+sys.path.insert(0, sys.argv[1])
+states = json.loads(sys.argv[2])
+from vpk import mod
+out = [[mod.m1.version(), mod.m2.version()]]
+for i, text in enumerate(states):
+    fname = "<state-%d>" % i
+    linecache.cache[fname] = (len(text), None, text.splitlines(True), fname)
+    exec(compile(text + "\\n", fname, "exec"), vars(mod))
+    out.append([mod.m1.version(), mod.m2.version()])
+print(json.dumps(out))
+"""
+
+
+def rebinding_kinds_scenario(root):
+    """a tracked module variable is re-bound to an int, to a plain function, that function is re-defined, the name is bound to a
+    lambda and back to an int: after every step the in-process versions are those of a fresh process on the resulting module"""
+    import subprocess
+    env = dict(os.environ, PYTHONPATH=common.REPO)
+
+    def run(first, states):
+        sub = tempfile.mkdtemp(prefix="kinds_", dir=root)
+        d = os.path.join(sub, "vpk")
+        os.makedirs(d)
+        open(os.path.join(d, "__init__.py"), "w").write("")
+        open(os.path.join(d, "mod.py"), "w").write(RAW_STATE_MOD % first)
+        try:
+            p = subprocess.run([common.PY, "-B", "-c", RAW_STATE_CHILD, sub, json.dumps(states)], stdout=subprocess.PIPE,
+                               stderr=subprocess.PIPE, text=True, env=env, timeout=120)
+            if p.returncode != 0:
+                return [["err:" + p.stderr.strip().split("\n")[-1][:200]] * 2] * (len(states) + 1)
+            return json.loads(p.stdout.strip().split("\n")[-1])
+        finally:
+            shutil.rmtree(sub, ignore_errors=True)
+    got = run(RAW_STATES[0], RAW_STATES[1:])
+    fails = []
+    for i, st in enumerate(RAW_STATES):
+        fresh = run(st, [])[0]
+        if got[i] != fresh:
+            fails.append(dict(clause="version-equals-fresh-process", fn="m1/m2", object="function", event=["rebind-variable-to", st.split("\n")[0]],
+                              events=RAW_STATES[:i + 1], in_process=got[i], fresh=fresh))
+            break
     return fails
 
 
@@ -590,6 +666,14 @@ def model_replay(prog, marks, events, out):
 
 
 def main(chk, replay=None):
+    if replay is not None and replay.get("raw_kinds"):
+        root = tempfile.mkdtemp(prefix="c13r_")
+        try:
+            fails = rebinding_kinds_scenario(root)
+            print(json.dumps(dict(still_fails=bool(fails), observed=fails[:2]), default=str))
+            return 1 if fails else 0
+        finally:
+            shutil.rmtree(root, ignore_errors=True)
     if replay is not None and replay.get("raw_declared"):
         root = tempfile.mkdtemp(prefix="c13r_")
         try:
@@ -674,6 +758,14 @@ def main(chk, replay=None):
         chk.violation({"what": "after defining %s the in-process version of m1 is %s but a fresh process computes %s" % (
             f["events"], f["in_process"], f["fresh"]), "class": {"clause": f["clause"], "event": "define-undefined-attribute", "object": "function"},
             "raw_undefined": True, "source": RAW_UNDEF_MOD, "observed": ufails[:2]})
+    kfails = rebinding_kinds_scenario(chk.tmpdir())
+    chk.case(["variable-rebound-to-values-and-functions"], nontrivial=True, sample=dict(fails=kfails[:1]))
+    chk.count("event:rebind-variable-to-function", 5)
+    if kfails:
+        f = kfails[0]
+        chk.violation({"what": "after re-binding RATE (%s) the in-process versions are %s but a fresh process computes %s" % (
+            f["event"][1], f["in_process"], f["fresh"]), "class": {"clause": f["clause"], "event": "rebind-variable-to-function", "object": "function"},
+            "raw_kinds": True, "observed": kfails[:2]})
     dfails = declared_dependency_scenarios(chk.tmpdir())
     chk.case(["clones-of-functions-with-declared-dependencies"], nontrivial=True, sample=dict(fails=dfails[:1]))
     chk.count("event:create-clone-of-declared-dependency-function", 6)
